@@ -209,6 +209,7 @@ type Interp struct {
 	yieldFlag bool
 	ranges   map[string]uint64
 	noPreempt int
+	model    map[string]uint64 // satisfying assignment of the current path condition (nil = unknown)
 }
 
 func (in *Interp) info(fn *ssa.Function) *fnInfo {
@@ -261,6 +262,7 @@ func (in *Interp) resetRun(prefix []int) {
 	in.objs = map[string]Value{}
 	in.ranges = nil
 	in.noPreempt = 0
+	in.model = map[string]uint64{} // the empty path condition is satisfied by anything
 	in.raceOn = in.cfg.Race
 }
 
